@@ -224,6 +224,45 @@ Theorem C20_consistency_accepts : forall h c i cp f e l v,
 Proof. exact consistency_accepts. Qed.
 Print Assumptions C20_consistency_accepts.
 
+(* every way two layouts can differ (class family, dimension, number of modes) is a dtype difference *)
+Theorem C20_dtype_differs : forall a b,
+  dtype_eqb (dtype_of a) (dtype_of b) = false <->
+  (layout (cls a) <> layout (cls b) \/ dim a <> dim b \/ length (extra a) <> length (extra b)).
+Proof. exact dtype_differs. Qed.
+Print Assumptions C20_dtype_differs.
+
+(* the constructor: all or nothing; a droplet of another layout anywhere in the list is rejected when
+   consistency is requested, against an explicit dtype (droplet / numpy dtype / array / Emulsion.empty)
+   and against the layout of the first droplet *)
+Theorem C20_ctor_all_or_nothing : forall h is dt cp f,
+  snd (exec h (OEmCtor is dt cp f)) <> Ok -> fst (exec h (OEmCtor is dt cp f)) = h.
+Proof. exact ctor_all_or_nothing. Qed.
+Print Assumptions C20_ctor_all_or_nothing.
+
+Theorem C20_consistency_rejects_ctor : forall h is i0 cp ls l0 v0,
+  wf h -> mapM (nth_error (hnd h)) is = Some ls -> nth_error (hnd h) i0 = Some l0 -> val_of h l0 = Some v0 ->
+  Exists (fun l => exists v, val_of h l = Some v /\ dtype_eqb (dtype_of v0) (dtype_of v) = false) ls ->
+  exec h (OEmCtor is (Some i0) cp true) = (h, Err EValue).
+Proof. exact consistency_rejects_ctor. Qed.
+Print Assumptions C20_consistency_rejects_ctor.
+
+Theorem C20_consistency_rejects_ctor_first : forall h i1 is cp l1 v1 ls,
+  wf h -> nth_error (hnd h) i1 = Some l1 -> val_of h l1 = Some v1 -> mapM (nth_error (hnd h)) is = Some ls ->
+  Exists (fun l => exists v, val_of h l = Some v /\ dtype_eqb (dtype_of v1) (dtype_of v) = false) ls ->
+  exec h (OEmCtor (i1 :: is) None cp true) = (h, Err EValue).
+Proof. exact consistency_rejects_ctor_first. Qed.
+Print Assumptions C20_consistency_rejects_ctor_first.
+
+(* copy.copy / copy.deepcopy / pickle round trip of an emulsion: never fails, same number of members, dtype kept
+   (ownership of the members: C20_sep_preserved and C20_copies_independent cover OEmClone) *)
+Theorem C20_clone_keeps_dtype : forall h c e,
+  wf h -> nth_error (ems h) c = Some e ->
+  snd (exec h (OEmClone c)) = Ok /\
+  exists e', nth_error (ems (fst (exec h (OEmClone c)))) (length (ems h)) = Some e' /\
+             (e_dtype e <> None -> e_dtype e' = e_dtype e) /\ length (e_mem e') = length (e_mem e).
+Proof. exact clone_keeps_dtype. Qed.
+Print Assumptions C20_clone_keeps_dtype.
+
 (* summary queries *)
 Theorem C20_stats_perm_invariant : forall (vol area : value -> Q) vs vs',
   Permutation vs vs' ->
@@ -272,4 +311,19 @@ Proof.
   split; [apply reachable_sep; repeat constructor|].
   split; [apply reachable_wf_aligned|].
   vm_compute. repeat split; reflexivity.
+Qed.
+
+(* non-vacuity for the constructor (explicit dtype, Emulsion.empty), clones and general slices, with the
+   2-modes-then-4-modes rejections evaluated on the reached heap *)
+Example C20_nonvacuous_ctor_clone_slices :
+  wf (run emp demo_ops2) /\ Aligned (run emp demo_ops2) /\
+  length (ems (run emp demo_ops2)) = 11 /\
+  abs_em (run emp demo_ops2) 4 = Some [vA; vP2] /\
+  nth_error (s_tcs (abs (run emp demo_ops2))) 2 = Some ([(5#1)%Q; 0%Q], [9; 10]) /\
+  exec (run emp demo_ops2) (OEmCtor [0; 1] None true true) = (run emp demo_ops2, Err EValue) /\
+  exec (run emp demo_ops2) (OAppend 1 1 true true) = (run emp demo_ops2, Err EValue).
+Proof.
+  split; [apply reachable_wf_aligned|]. split; [apply reachable_wf_aligned|].
+  destruct demo_facts2 as (F1 & _ & _ & F4 & _ & _ & _ & F8 & _ & _ & _ & F12 & _ & F14 & _).
+  split; [exact F1|]. split; [exact F4|]. split; [exact F8|]. split; [exact F12|exact F14].
 Qed.
